@@ -135,8 +135,9 @@ def step4 (m : List Details) : Except Err Unit :=
   | some e => .error (.notReachable e.index e.hash)
   | none => .ok ()
 
-/-- `validate_intent_relationships`; returns the root's children and the details map. -/
-def validateRelationships (t : Tree) (maxSubintentDepth : Nat) : Except Err (List Nat × List Details) :=
+/-- `validate_intent_relationships` with the step-3 loop running on `fuel`; returns the root's
+children and the details map. -/
+def validateRelationshipsFuel (fuel : Nat) (t : Tree) (maxSubintentDepth : Nat) : Except Err (List Nat × List Details) :=
   match step1 t.subs [] with
   | .error e => .error e
   | .ok m1 =>
@@ -149,12 +150,23 @@ def validateRelationships (t : Tree) (maxSubintentDepth : Nat) : Except Err (Lis
         match maxDepthFor t.root maxSubintentDepth with
         | none => .error .panic
         | some maxDepth =>
-          match walk maxDepth (t.subs.length + 1) m2 (pushChildren rootCs 1 []) with
+          match walk maxDepth fuel m2 (pushChildren rootCs 1 []) with
           | .error e => .error e
           | .ok m3 =>
             match step4 m3 with
             | .error e => .error e
             | .ok () => .ok (rootCs, m3)
+
+/-- The fuel that `worklist_terminates` (Props/C35) proves sufficient whenever the root hash is not
+the placeholder. For the placeholder root (a transaction-intent hash of 32 zero bytes) step 2
+cannot tell "claimed by the root" from "unclaimed", subintents can be visited repeatedly and the
+number of iterations is only bounded through the depth limit; the model then runs on a large
+constant so that the correspondence can still be observed on such inputs. -/
+def defaultFuel (t : Tree) : Nat :=
+  if t.root == PLACEHOLDER then 1000000 else t.subs.length + 1
+
+def validateRelationships (t : Tree) (maxSubintentDepth : Nat) : Except Err (List Nat × List Details) :=
+  validateRelationshipsFuel (defaultFuel t) t maxSubintentDepth
 
 /-! ### Yield-count matching -/
 
